@@ -8,6 +8,7 @@
 EXTENDS Tens, TLC
 
 CONSTANTS MaxOrder, MaxDim, MaxSize,
+          WithEmpty,      \* TRUE: include the tensors with a zero-length mode
           HighOrders      \* orders of the additional all-twos tensors (order 9 and up: a regime of its own for index code)
 
 Shapes == {s \in UNION {[1..n -> 1..MaxDim] : n \in 1..MaxOrder} : Size(s) <= MaxSize}
@@ -71,6 +72,17 @@ HighCfgs(shape) ==
              \cup {[op |-> "matricize", shape |-> shape, rows |-> SortedSeq(R), cols |-> Rev(SortedSeq(Modes(shape) \ R)), colsgiven |-> TRUE]}
              : R \in HighRowSets(N)}
 
+\* ---- empty family: tensors with a zero-length mode (an empty batch).  Nothing to lay out, but the result must exist and have
+\* the documented shape, and the fold must give back the (empty) tensor of the original shape.
+EmptyShapes == IF WithEmpty THEN {<<0, 3>>, <<3, 0>>, <<2, 0, 3>>, <<0, 2, 2>>, <<2, 3, 0>>, <<2, 0, 2, 2>>} ELSE {}
+EmptyCfgs(shape) ==
+    \* (unfold / partial_unfold write the column count as -1, which NumPy cannot infer for an empty array: the unchanged
+    \*  library refuses those; matricize and the vectorisations state every size explicitly and are total)
+    LET N == Len(shape) IN
+         {[op |-> "vec", shape |-> shape]}
+    \cup UNION {{[op |-> "matricize", shape |-> shape, rows |-> SortedSeq(R), cols |-> SortedSeq(Modes(shape) \ R), colsgiven |-> g] : g \in BOOLEAN}
+                 : R \in {{0}, {N - 1}, 0..(N - 2)}}
+
 AllConfigs(dummy) == {c \in UNION {Cfgs(s) : s \in Shapes} : ValidCfg(c)}
 
 ----------------------------------------------------------------------------
@@ -92,12 +104,12 @@ OutShape(c) ==
     LET N == Len(c.shape)
         sh == c.shape
         mid(sb, se) == ProdSeq(SubSeq(sh, sb + 1, N - se)) IN
-    CASE c.op = "unfold" -> <<sh[c.mode + 1], Size(sh) \div sh[c.mode + 1]>>
+    CASE c.op = "unfold" -> <<sh[c.mode + 1], ProdSeq(Pick(sh, SortedSeq((1..N) \ {c.mode + 1})))>>
       [] c.op = "vec" -> <<Size(sh)>>
       [] c.op = "partial_unfold" ->
             SubSeq(sh, 1, c.sb)
             \o (IF c.ravel THEN <<mid(c.sb, c.se)>>
-                ELSE <<sh[c.sb + c.mode + 1], mid(c.sb, c.se) \div sh[c.sb + c.mode + 1]>>)
+                ELSE <<sh[c.sb + c.mode + 1], ProdSeq(Pick(sh, SortedSeq(((c.sb + 1)..(N - c.se)) \ {c.sb + c.mode + 1})))>>)
             \o SubSeq(sh, N - c.se + 1, N)
       [] c.op = "partial_vec" -> SubSeq(sh, 1, c.sb) \o <<mid(c.sb, c.se)>> \o SubSeq(sh, N - c.se + 1, N)
       [] c.op = "matricize" -> <<ProdSeq(Pick(sh, Plus1(c.rows))), ProdSeq(Pick(sh, Plus1(c.cols)))>>
@@ -132,8 +144,9 @@ CfgOK(c) ==
 \* successor per configuration of that shape; SpecOK is evaluated in every state.
 VARIABLE cfg
 NoCfg == [op |-> "none"]
-Init == cfg \in {[op |-> "shape", shape |-> s] : s \in Shapes \cup HighShapes}
-Next == cfg.op = "shape" /\ cfg' \in {c \in (IF cfg.shape \in HighShapes THEN HighCfgs(cfg.shape) ELSE Cfgs(cfg.shape)) : ValidCfg(c)}
+Init == cfg \in {[op |-> "shape", shape |-> s] : s \in Shapes \cup HighShapes \cup EmptyShapes}
+Next == cfg.op = "shape" /\ cfg' \in {c \in (IF cfg.shape \in HighShapes THEN HighCfgs(cfg.shape)
+                                                ELSE IF cfg.shape \in EmptyShapes THEN EmptyCfgs(cfg.shape) ELSE Cfgs(cfg.shape)) : ValidCfg(c)}
 Spec == Init /\ [][Next]_cfg
 SpecOK == cfg.op # "shape" => CfgOK(cfg)
 =============================================================================
